@@ -128,6 +128,17 @@ def limit_menu(it: str) -> List[Tuple[str, Any, Any]]:
     return m
 
 
+def zero_limit_menu(it: str) -> List[Tuple[str, Any, Any]]:
+    """limits whose VALUE is 0 / 0.0 (a value tested for truthiness instead of `is not None` would be lost) and negative limits"""
+    a, b = LIMVALS[it]
+    z: Any = 0.0 if it in ("f32", "f64") else 0
+    m = [("zero-open", L(z, "OPEN"), L(b, "CLOSED")), ("zero-closed", L(z, "CLOSED"), L(b, "OPEN"))]
+    if it in ("i8", "f32", "f64"):
+        neg = -100 if it == "i8" else -10.5
+        m += [("neg-to-zero-open", L(neg, "CLOSED"), L(z, "OPEN")), ("neg-open-to-zero", L(neg, "OPEN"), z)]
+    return m
+
+
 def with_limits(s: Dict[str, Any], lo: Any, hi: Any) -> Dict[str, Any]:
     s = dict(s)
     if lo is not None:
@@ -158,12 +169,19 @@ def gen_linear(quick: bool) -> List[Method]:
             factors = (-2, -1, 0, 1, 3) + ((-0.5, 0.5) if fl else ())
             dens = (1, 4) if quick else (1, 2, 4)
             a, _ = LIMVALS[it]
+            invs = (a + 5, 0) + ((-7,) if it in ("i8", "f32") else ())
             for o, f, d in itertools.product(offsets, factors, dens):
-                for lname, lo, hi in limit_menu(it):
+                lims = limit_menu(it) + (zero_limit_menu(it) if (d == 1 or not quick) else [])
+                for lname, lo, hi in lims:
                     base = with_limits({"num": [o, f], "den": [d]}, lo, hi)
                     out.append((it, pt, {"cat": "LINEAR", "i2p": [base]}))
                     if f == 0:
-                        out.append((it, pt, {"cat": "LINEAR", "i2p": [dict(base, inv=a + 5)]}))
+                        for inv in (invs if lname in ("none", "closed", "open", "zero-open", "neg-to-zero-open") else invs[:1]):
+                            out.append((it, pt, {"cat": "LINEAR", "i2p": [dict(base, inv=inv)]}))
+            # negative denominator
+            for o, f in itertools.product(offsets, factors):
+                for lname, lo, hi in limit_menu(it)[:3] + zero_limit_menu(it)[:1]:
+                    out.append((it, pt, {"cat": "LINEAR", "i2p": [with_limits({"num": [o, f], "den": [-2]}, lo, hi)]}))
             # COMPU-DENOMINATOR omitted (= 1), and a single numerator (constant function)
             for lname, lo, hi in limit_menu(it)[:3]:
                 out.append((it, pt, {"cat": "LINEAR", "i2p": [with_limits({"num": [1, 3]}, lo, hi)]}))
@@ -248,6 +266,16 @@ def gen_scale_linear(quick: bool) -> List[Method]:
                         cm = scale_linear_cm(bk, slopes, jump, style, with_inv)
                         if cm is not None and coeffs_ok_for(pt, cm):
                             out.append((it, pt, cm))
+    # the same functions written with negated numerators and a negative denominator
+    for it, pt in pairs[:4]:
+        bk = BREAKS[it]
+        for slopes in seqs[:len(S1) + len(S1) ** 2]:
+            cm = scale_linear_cm(bk, slopes, 0, "co", True)
+            if cm is not None and coeffs_ok_for(pt, cm):
+                for sc in cm["i2p"]:
+                    sc["num"] = [-c for c in sc["num"]]
+                    sc["den"] = [-c for c in sc["den"]]
+                out.append((it, pt, cm))
     # scales with a gap between them, and a decreasing jump
     for it, pt in (("u8", "A_INT32"), ("i8", "A_FLOAT32")):
         a = BREAKS[it]
@@ -262,8 +290,8 @@ def gen_tab_intp(quick: bool) -> List[Method]:
           "i8": [(-100, 50), (-128, 0, 127), (-3, 0, 3, 90)],
           "u16": [(0, 1000), (10, 300, 40000)],
           "f32": [(0.0, 10.0), (-10.5, 0.0, 200.25), (0.0, 0.5, 10.0, 1000.0)]}
-    Y = (0, 2, 15, 100)
-    YF = (0, 2.5, -7.25, 100)
+    Y = (0, 2, -4, 100, 15)
+    YF = (0.0, 2.5, -7.25, 100, 15)
     pairs = [("u8", "A_UINT32"), ("u8", "A_INT32"), ("u8", "A_FLOAT32"), ("i8", "A_INT32"), ("f32", "A_FLOAT32"), ("f32", "A_INT32")]
     if not quick:
         pairs += [("u16", "A_UINT32"), ("i8", "A_FLOAT64"), ("u16", "A_FLOAT32")]
@@ -271,10 +299,10 @@ def gen_tab_intp(quick: bool) -> List[Method]:
     for it, pt in pairs:
         ys_menu = YF if is_float_type(pt) else Y
         for xs in XS[it]:
-            if quick and len(xs) == 4:
-                ys_list: Iterable[Tuple[Any, ...]] = itertools.product(ys_menu[:3], repeat=4)
+            if len(xs) == 4:
+                ys_list: Iterable[Tuple[Any, ...]] = itertools.product(ys_menu[:3] if quick else ys_menu[:4], repeat=4)
             else:
-                ys_list = itertools.product(ys_menu, repeat=len(xs))
+                ys_list = itertools.product(ys_menu[:4] if quick else ys_menu, repeat=len(xs))
             for ys in ys_list:
                 out.append((it, pt, {"cat": "TAB-INTP", "i2p": [{"lo": x, "const": y} for x, y in zip(xs, ys)]}))
     return out
@@ -292,9 +320,10 @@ def gen_rat_func(quick: bool) -> List[Method]:
         dens = dens[:2] + dens[3:]
     for it, pt in pairs:
         lm = limit_menu(it if it in LIMVALS else "f32")
-        for num in nums:
+        lm = lm[:4] + zero_limit_menu(it if it in LIMVALS else "f32")[:1] + lm[4:]
+        for num in (tuple(nums) + (([0.0, 0.5], [-2.5, 0.0]) if is_float_type(pt) else ())):
             for den in dens:
-                for lname, lo, hi in (lm if not quick else lm[:4]):
+                for lname, lo, hi in (lm if not quick else lm[:5]):
                     s = {"num": list(num)}
                     if den is not None:
                         s["den"] = list(den)
@@ -303,9 +332,15 @@ def gen_rat_func(quick: bool) -> List[Method]:
                     # the exact inverse of an affine function n0 + n1 x over d0:  x = (d0 p - n0) / n1
                     if len(num) == 2 and num[1] != 0 and (den is None or len(den) == 1):
                         d0 = 1 if den is None else den[0]
-                        p2is.append([{"num": [-num[0], d0], "den": [num[1]]}])
-                        # ... restricted to a physical interval
-                        p2is.append([{"num": [-num[0], d0], "den": [num[1]], "lo": L(-50, "OPEN"), "hi": L(120, "CLOSED")}])
+                        # (coefficients of COMPU-PHYS-TO-INTERNAL are parsed with the internal type: clear fractions)
+                        k = F(num[1]).denominator * F(num[0]).denominator
+                        inv_num = [F(-num[0]) * k, F(d0) * k]
+                        inv_den = [F(num[1]) * k]
+                        conv = (lambda c: float(c)) if base_type(it) in R.FLOAT_TYPES else (lambda c: int(c))
+                        if base_type(it) in R.FLOAT_TYPES or all(c.denominator == 1 for c in inv_num + inv_den):
+                            p2is.append([{"num": [conv(c) for c in inv_num], "den": [conv(c) for c in inv_den]}])
+                            # ... restricted to a physical interval
+                            p2is.append([{"num": [conv(c) for c in inv_num], "den": [conv(c) for c in inv_den], "lo": L(-50, "OPEN"), "hi": L(120, "CLOSED")}])
                     else:
                         p2is.append([{"num": [1, 1], "den": [2], "lo": L(0, "CLOSED"), "hi": L(100, "OPEN")}])
                     for p2i in p2is:
@@ -368,6 +403,37 @@ def gen_texttable(quick: bool) -> List[Method]:
                 cm: Dict[str, Any] = {"cat": "TEXTTABLE", "i2p": [dict(T[i]) for i in lay]}
                 cm.update(dv)
                 out.append((it, pt, cm))
+    # falsy values (0, 0.0, '') as inverse value, limit, text and default value; negative limits and inverse values;
+    # each combined with 0..2 rows that do not overlap it, on unsigned, signed and float internal types
+    def zero_rows(z: Any) -> List[Dict[str, Any]]:
+        return [{"lo": L(-3, "OPEN"), "hi": L(3, "OPEN"), "const": "around zero", "inv": z},
+                {"lo": L(-3, "CLOSED"), "hi": L(3, "CLOSED"), "const": "around zero", "inv": z},
+                {"lo": L(-6, "CLOSED"), "hi": L(z, "CLOSED"), "const": "up to zero", "inv": z},
+                {"lo": L(z, "OPEN"), "hi": L(6, "CLOSED"), "const": "above zero", "inv": 2},
+                {"lo": L(-6, "OPEN"), "hi": L(-2, "OPEN"), "const": "below", "inv": -4},
+                {"lo": z, "const": "null"},  # point 0
+                {"lo": L(z, "CLOSED"), "hi": L(z, "CLOSED"), "const": "null"},
+                {"lo": 50, "const": ""},  # empty text
+                {"lo": L(-3, "OPEN"), "hi": L(3, "OPEN"), "const": "", "inv": z}]
+    pool = [T[1], T[3], T[5], T[6]]  # seven, teens, many, thirties
+    companions = [c for n in (0, 1, 2) for c in itertools.combinations(range(len(pool)), n)]
+    if quick:
+        companions = companions[:5] + companions[5::3]
+    zdefaults: List[Dict[str, Any]] = [{}, {"default_phys": ""}, {"default_int": 0}, {"default_phys": "dflt", "default_int": 0},
+                                       {"default_phys": "", "default_int": -1}]
+    zpairs = [("u8", "A_UNICODE2STRING", 0), ("i8", "A_UNICODE2STRING", 0), ("f32", "A_UNICODE2STRING", 0.0)]
+    if not quick:
+        zpairs += [("u16", "A_UTF8STRING", 0), ("f64", "A_ASCIISTRING", 0.0)]
+    for it, pt, z in zpairs:
+        for row in zero_rows(z):
+            for comp in companions:
+                for dv in zdefaults:
+                    for first in ((True, False) if comp else (True,)):
+                        rows = [dict(pool[i]) for i in comp]
+                        rows = [dict(row)] + rows if first else rows + [dict(row)]
+                        cm = {"cat": "TEXTTABLE", "i2p": rows}
+                        cm.update(dv)
+                        out.append((it, pt, cm))
     return out
 
 
